@@ -192,7 +192,7 @@ def check(run):
                         run.violation("ethbar-inverse", "ethbar_inverse_NP(right)", inp, "ethbar(ethbar^-1 g) = g", "differs")
                 except Exception as e:
                     run.violation("operator-raised", "ethbar_inverse_NP", inp, "array", repr(e))
-    run.assumptions += ["'the series reproduces f at the rotated rotor' needs the representation property (not proved): oracle sweep, 40 terms, |t|<=0.5",
+    run.assumptions += ["'the series reproduces f at the rotated rotor' is proved in exact arithmetic for every ell (Generators.left_series_eval / right_series_eval); the numerical sweep sums 40 terms at |t|<=0.5 on the real code",
                         "left generator convention measured on the pinned tree: f(exp(t g) Q) = exp(2 i t L_g) f ; right: f(Q exp(t g)) = exp(2 i t R_g) f"]
 
 
